@@ -114,6 +114,116 @@ static void __attribute__((noinline)) dirty_stack(uint8_t p) {
 }
 static int carry_code(bn_digit_t c) { return c == 0 ? 0 : (c == 1 ? 1 : 2); }
 
+/* everything the call needs / produces; the library is entered from a separate non-inlined frame so that the
+ * temporaries of the (static inline) bn_* functions live in stack memory that dirty_stack() has just filled */
+struct call {
+	const char *op, *al;
+	long k, k2, n, n2;
+	int rc, xs_signed;
+	size_t xs_n, xs_bytes;
+	uint8_t *obuf;
+	bn_digit_t carry;
+	bn_p res, res2, pB;
+};
+static void __attribute__((noinline)) do_call(struct call *c) {
+	const char *op = c->op, *al = c->al;
+	long k = c->k, k2 = c->k2, n = 0, n2 = 0;
+	int rc = 0, xs_signed = 0;
+	size_t xs_n = 0, xs_bytes = 0;
+	uint8_t *obuf = NULL;
+	bn_digit_t carry = 0;
+	bn_p res = &A, res2 = NULL, pB = c->pB;
+	if (!strcmp(op, "add")) rc = bn_add(&A, pB, &carry);
+	else if (!strcmp(op, "sub")) rc = bn_sub(&A, pB, &carry);
+	else if (!strcmp(op, "add_digit")) bn_add_digit(&A, digit_of(vb), &carry);
+	else if (!strcmp(op, "sub_digit")) bn_sub_digit(&A, digit_of(vb), &carry);
+	else if (!strcmp(op, "mult")) rc = bn_mult(&A, pB);
+	else if (!strcmp(op, "square")) rc = bn_square(&A);
+	else if (!strcmp(op, "mult_digit")) rc = bn_mult_digit(&A, digit_of(vb));
+	else if (!strcmp(op, "div")) {
+		bn_p rem = &R;
+		if (!strcmp(al, "nul") || !strcmp(al, "abn")) rem = NULL;
+		else if (!strcmp(al, "ra") || !strcmp(al, "abr")) rem = &A;
+		else if (!strcmp(al, "rb")) rem = &B;
+		rc = bn_div(&A, pB, rem);
+		res2 = (rem == &A) ? NULL : rem;
+	}
+	else if (!strcmp(op, "l_shift")) bn_l_shift(&A, (size_t)k);
+	else if (!strcmp(op, "r_shift")) bn_r_shift(&A, (size_t)k);
+	else if (!strcmp(op, "and")) rc = bn_and(&A, pB);
+	else if (!strcmp(op, "or")) rc = bn_or(&A, pB);
+	else if (!strcmp(op, "xor")) rc = bn_xor(&A, pB);
+	else if (!strcmp(op, "bit_set")) rc = bn_bit_set(&A, (size_t)k, (int)k2);
+	else if (!strcmp(op, "is_bit_set")) n = bn_is_bit_set(&A, (size_t)k);
+	else if (!strcmp(op, "cmp")) n = bn_cmp(&A, pB);
+	else if (!strcmp(op, "is_equal")) n = bn_is_equal(&A, pB);
+	else if (!strcmp(op, "is_zero")) n = bn_is_zero(&A);
+	else if (!strcmp(op, "is_one")) n = bn_is_one(&A);
+	else if (!strcmp(op, "is_odd")) n = bn_is_odd(&A);
+	else if (!strcmp(op, "is_even")) n = bn_is_even(&A);
+	else if (!strcmp(op, "is_pow2")) n = (long)bn_is_pow2(&A);
+	else if (!strcmp(op, "ctz")) n = (long)bn_ctz(&A);
+	else if (!strcmp(op, "clz")) n = (A.digits == 0) ? -1 : (long)bn_clz(&A);
+	else if (!strcmp(op, "calc_bits")) n = (long)bn_calc_bits(&A);
+	else if (!strcmp(op, "assign")) { rc = bn_assign(&R, &A); res = &R; }
+	else if (!strcmp(op, "gcd") || !strcmp(op, "gcd_bin")) {
+		bn_p dst = &R;
+		if (!strcmp(al, "da") || !strcmp(al, "all")) dst = &A;
+		else if (!strcmp(al, "db")) dst = &B;
+		rc = (op[3] == 0) ? bn_gcd(dst, &A, pB) : bn_gcd_bin(dst, &A, pB);
+		res = dst;
+	}
+	else if (!strcmp(op, "sqrt")) rc = bn_sqrt(&A);
+	else if (!strcmp(op, "mod")) rc = bn_mod(&A, &M, NULL);
+	else if (!strcmp(op, "mod_add")) rc = bn_mod_add(&A, pB, &M, NULL);
+	else if (!strcmp(op, "mod_sub")) rc = bn_mod_sub(&A, pB, &M, NULL);
+	else if (!strcmp(op, "mod_mult")) rc = bn_mod_mult(&A, pB, &M, NULL);
+	else if (!strcmp(op, "mod_square")) rc = bn_mod_square(&A, &M, NULL);
+	else if (!strcmp(op, "mod_exp")) rc = bn_mod_exp(&A, &B, &M, NULL);
+	else if (!strcmp(op, "mod_inv")) rc = bn_mod_inv(&A, &M, NULL);
+	else if (!strcmp(op, "mod_sqrt")) rc = bn_mod_sqrt(&A, &M, NULL);
+	else if (!strcmp(op, "mod_reduce")) rc = bn_mod_reduce(&A, &M, NULL);
+	else if (!strcmp(op, "naf")) {
+		size_t cnt = 0;
+		if ((size_t)k2 > sizeof(sd)) die("naf array too large");
+		memset(sd, 0x55, sizeof(sd));
+		rc = bn_calc_naf(&A, (size_t)k, (size_t)k2, sd, &cnt);
+		n = (long)cnt; xs_n = (size_t)k2; xs_signed = 1;
+	}
+	else if (!strcmp(op, "jsf")) {
+		size_t cnt = 0, off = 0;
+		if ((size_t)k2 > sizeof(sd)) die("jsf array too large");
+		memset(sd, 0x55, sizeof(sd));
+		rc = bn_calc_jsf(&A, pB, (size_t)k2, sd, &cnt, &off);
+		n = (long)cnt; n2 = (long)off; xs_signed = 2;
+		if (rc == 0 && (off + cnt > (size_t)k2 || cnt > off)) { rc = 0; n = -1; }
+	}
+	else if (!strncmp(op, "imp_", 4)) {
+		uint8_t *src = vh_buf(xin_n); /* exact-size block: reads past the end are observed */
+		memcpy(src, xin, xin_n);
+		if (!strcmp(op, "imp_be_bin")) rc = bn_import_be_bin(&A, src, xin_n);
+		else if (!strcmp(op, "imp_le_bin")) rc = bn_import_le_bin(&A, src, xin_n);
+		else if (!strcmp(op, "imp_be_hex")) rc = bn_import_be_hex(&A, src, xin_n);
+		else if (!strcmp(op, "imp_le_hex")) rc = bn_import_le_hex(&A, src, xin_n);
+		else die("unknown import");
+		vh_buf_free(src);
+	}
+	else if (!strncmp(op, "exp_", 4)) {
+		size_t ret = (size_t)-1;
+		obuf = vh_buf((size_t)k);
+		if (!strcmp(op, "exp_be_bin")) rc = bn_export_be_bin(&A, (uint32_t)k2, obuf, (size_t)k, &ret);
+		else if (!strcmp(op, "exp_le_bin")) rc = bn_export_le_bin(&A, (uint32_t)k2, obuf, (size_t)k, &ret);
+		else if (!strcmp(op, "exp_be_hex")) rc = bn_export_be_hex(&A, (uint32_t)k2, obuf, (size_t)k, &ret);
+		else if (!strcmp(op, "exp_le_hex")) rc = bn_export_le_hex(&A, (uint32_t)k2, obuf, (size_t)k, &ret);
+		else die("unknown export");
+		n = (ret == (size_t)-1) ? -1 : (long)ret;
+		xs_bytes = (rc == 0 && ret != (size_t)-1) ? MIN(ret, (size_t)k) : 0;
+	}
+	else die("unknown op");
+	c->n = n; c->n2 = n2; c->rc = rc; c->xs_signed = xs_signed; c->xs_n = xs_n; c->xs_bytes = xs_bytes;
+	c->obuf = obuf; c->carry = carry; c->res = res; c->res2 = res2;
+}
+
 int main(void) {
 	static char line[1 << 17];
 	char *tok[14];
@@ -121,13 +231,13 @@ int main(void) {
 	unsigned alarm_s = getenv("BN_DRV_ALARM") ? (unsigned)atoi(getenv("BN_DRV_ALARM")) : 20;
 	vh_install_fault_handler();
 	while (fgets(line, sizeof(line), stdin)) {
-		size_t nt = 0, ca, cb, cm, cr, abits, bbits, mbits, xs_n = 0, xs_bytes = 0;
-		long k, k2, n = 0, n2 = 0;
-		int rc = 0, cc = 0, xs_signed = 0;
-		uint8_t poison, *obuf = NULL;
-		bn_digit_t carry = 0;
-		bn_p res = &A, res2 = NULL, pB = &B;
+		size_t nt = 0, ca, cb, cm, cr, abits, bbits, mbits, xs_n, xs_bytes;
+		long k, k2, n, n2;
+		int rc, cc, xs_signed;
+		uint8_t poison, *obuf;
+		bn_p res, res2, pB = &B;
 		char *save = NULL, *op;
+		struct call cl;
 		if (!strncmp(line, "cfg", 3)) {
 #ifdef BN_CC_MULL_DIV
 			int ccmd = 1;
@@ -153,98 +263,15 @@ int main(void) {
 		bn_load(&R, cr, va, 0, poison);
 		if (!strcmp(al, "ab") || !strcmp(al, "abn") || !strcmp(al, "abr") || !strcmp(al, "all")) pB = &A;
 		(void)bbits; (void)mbits;
-		dirty_stack(poison);
+		memset(&cl, 0, sizeof(cl));
+		cl.op = op; cl.al = al; cl.k = k; cl.k2 = k2; cl.pB = pB;
 		alarm(alarm_s);
-
-		if (!strcmp(op, "add")) rc = bn_add(&A, pB, &carry);
-		else if (!strcmp(op, "sub")) rc = bn_sub(&A, pB, &carry);
-		else if (!strcmp(op, "add_digit")) bn_add_digit(&A, digit_of(vb), &carry);
-		else if (!strcmp(op, "sub_digit")) bn_sub_digit(&A, digit_of(vb), &carry);
-		else if (!strcmp(op, "mult")) rc = bn_mult(&A, pB);
-		else if (!strcmp(op, "square")) rc = bn_square(&A);
-		else if (!strcmp(op, "mult_digit")) rc = bn_mult_digit(&A, digit_of(vb));
-		else if (!strcmp(op, "div")) {
-			bn_p rem = &R;
-			if (!strcmp(al, "nul") || !strcmp(al, "abn")) rem = NULL;
-			else if (!strcmp(al, "ra") || !strcmp(al, "abr")) rem = &A;
-			else if (!strcmp(al, "rb")) rem = &B;
-			rc = bn_div(&A, pB, rem);
-			res2 = (rem == &A) ? NULL : rem;
-		}
-		else if (!strcmp(op, "l_shift")) bn_l_shift(&A, (size_t)k);
-		else if (!strcmp(op, "r_shift")) bn_r_shift(&A, (size_t)k);
-		else if (!strcmp(op, "and")) rc = bn_and(&A, pB);
-		else if (!strcmp(op, "or")) rc = bn_or(&A, pB);
-		else if (!strcmp(op, "xor")) rc = bn_xor(&A, pB);
-		else if (!strcmp(op, "bit_set")) rc = bn_bit_set(&A, (size_t)k, (int)k2);
-		else if (!strcmp(op, "is_bit_set")) n = bn_is_bit_set(&A, (size_t)k);
-		else if (!strcmp(op, "cmp")) n = bn_cmp(&A, pB);
-		else if (!strcmp(op, "is_equal")) n = bn_is_equal(&A, pB);
-		else if (!strcmp(op, "is_zero")) n = bn_is_zero(&A);
-		else if (!strcmp(op, "is_one")) n = bn_is_one(&A);
-		else if (!strcmp(op, "is_odd")) n = bn_is_odd(&A);
-		else if (!strcmp(op, "is_even")) n = bn_is_even(&A);
-		else if (!strcmp(op, "is_pow2")) n = (long)bn_is_pow2(&A);
-		else if (!strcmp(op, "ctz")) n = (long)bn_ctz(&A);
-		else if (!strcmp(op, "clz")) n = (A.digits == 0) ? -1 : (long)bn_clz(&A);
-		else if (!strcmp(op, "calc_bits")) n = (long)bn_calc_bits(&A);
-		else if (!strcmp(op, "assign")) { rc = bn_assign(&R, &A); res = &R; }
-		else if (!strcmp(op, "gcd") || !strcmp(op, "gcd_bin")) {
-			bn_p dst = &R;
-			if (!strcmp(al, "da") || !strcmp(al, "all")) dst = &A;
-			else if (!strcmp(al, "db")) dst = &B;
-			rc = (op[3] == 0) ? bn_gcd(dst, &A, pB) : bn_gcd_bin(dst, &A, pB);
-			res = dst;
-		}
-		else if (!strcmp(op, "sqrt")) rc = bn_sqrt(&A);
-		else if (!strcmp(op, "mod")) rc = bn_mod(&A, &M, NULL);
-		else if (!strcmp(op, "mod_add")) rc = bn_mod_add(&A, pB, &M, NULL);
-		else if (!strcmp(op, "mod_sub")) rc = bn_mod_sub(&A, pB, &M, NULL);
-		else if (!strcmp(op, "mod_mult")) rc = bn_mod_mult(&A, pB, &M, NULL);
-		else if (!strcmp(op, "mod_square")) rc = bn_mod_square(&A, &M, NULL);
-		else if (!strcmp(op, "mod_exp")) rc = bn_mod_exp(&A, &B, &M, NULL);
-		else if (!strcmp(op, "mod_inv")) rc = bn_mod_inv(&A, &M, NULL);
-		else if (!strcmp(op, "mod_sqrt")) rc = bn_mod_sqrt(&A, &M, NULL);
-		else if (!strcmp(op, "mod_reduce")) rc = bn_mod_reduce(&A, &M, NULL);
-		else if (!strcmp(op, "naf")) {
-			size_t cnt = 0;
-			if ((size_t)k2 > sizeof(sd)) die("naf array too large");
-			memset(sd, 0x55, sizeof(sd));
-			rc = bn_calc_naf(&A, (size_t)k, (size_t)k2, sd, &cnt);
-			n = (long)cnt; xs_n = (size_t)k2; xs_signed = 1;
-		}
-		else if (!strcmp(op, "jsf")) {
-			size_t cnt = 0, off = 0;
-			if ((size_t)k2 > sizeof(sd)) die("jsf array too large");
-			memset(sd, 0x55, sizeof(sd));
-			rc = bn_calc_jsf(&A, pB, (size_t)k2, sd, &cnt, &off);
-			n = (long)cnt; n2 = (long)off; xs_signed = 2;
-			if (rc == 0 && (off + cnt > (size_t)k2 || cnt > off)) { rc = 0; n = -1; }
-		}
-		else if (!strncmp(op, "imp_", 4)) {
-			uint8_t *src = vh_buf(xin_n); /* exact-size block: reads past the end are observed */
-			memcpy(src, xin, xin_n);
-			if (!strcmp(op, "imp_be_bin")) rc = bn_import_be_bin(&A, src, xin_n);
-			else if (!strcmp(op, "imp_le_bin")) rc = bn_import_le_bin(&A, src, xin_n);
-			else if (!strcmp(op, "imp_be_hex")) rc = bn_import_be_hex(&A, src, xin_n);
-			else if (!strcmp(op, "imp_le_hex")) rc = bn_import_le_hex(&A, src, xin_n);
-			else die("unknown import");
-			vh_buf_free(src);
-		}
-		else if (!strncmp(op, "exp_", 4)) {
-			size_t ret = (size_t)-1;
-			obuf = vh_buf((size_t)k);
-			if (!strcmp(op, "exp_be_bin")) rc = bn_export_be_bin(&A, (uint32_t)k2, obuf, (size_t)k, &ret);
-			else if (!strcmp(op, "exp_le_bin")) rc = bn_export_le_bin(&A, (uint32_t)k2, obuf, (size_t)k, &ret);
-			else if (!strcmp(op, "exp_be_hex")) rc = bn_export_be_hex(&A, (uint32_t)k2, obuf, (size_t)k, &ret);
-			else if (!strcmp(op, "exp_le_hex")) rc = bn_export_le_hex(&A, (uint32_t)k2, obuf, (size_t)k, &ret);
-			else die("unknown export");
-			n = (ret == (size_t)-1) ? -1 : (long)ret;
-			xs_bytes = (rc == 0 && ret != (size_t)-1) ? MIN(ret, (size_t)k) : 0;
-		}
-		else die("unknown op");
+		dirty_stack(poison);
+		do_call(&cl);
 		alarm(0);
-		cc = carry_code(carry);
+		n = cl.n; n2 = cl.n2; rc = cl.rc; xs_signed = cl.xs_signed; xs_n = cl.xs_n; xs_bytes = cl.xs_bytes;
+		obuf = cl.obuf; res = cl.res; res2 = cl.res2;
+		cc = carry_code(cl.carry);
 
 		printf("rc=%d c=%d cnt=%zu nz=%d n=%ld n2=%ld", rc, cc, res->count, bn_norm_flag(res), n, n2);
 		print_limbs("r", res);
